@@ -7,6 +7,27 @@ use std::collections::BTreeMap;
 use std::io::Write;
 use std::panic::{catch_unwind, AssertUnwindSafe};
 
+/// progress beacon for the watchdog thread (main.rs): a counter bumped before every call into the
+/// subject and the text of the current case so far (replay format)
+pub static BEAT: std::sync::atomic::AtomicU64 = std::sync::atomic::AtomicU64::new(0);
+pub static DONE: std::sync::atomic::AtomicBool = std::sync::atomic::AtomicBool::new(false);
+pub static CUR: std::sync::Mutex<String> = std::sync::Mutex::new(String::new());
+fn beat_case(head: &str) {
+    if let Ok(mut c) = CUR.lock() {
+        c.clear();
+        c.push_str(head);
+    }
+    BEAT.fetch_add(1, std::sync::atomic::Ordering::Relaxed);
+}
+fn beat_op(op: &[i128]) {
+    if let Ok(mut c) = CUR.lock() {
+        c.push_str("O ");
+        c.push_str(&join(op));
+        c.push('\n');
+    }
+    BEAT.fetch_add(1, std::sync::atomic::Ordering::Relaxed);
+}
+
 pub struct Trace {
     pub out: std::io::BufWriter<std::fs::File>,
     pub cases: u64,
@@ -77,6 +98,7 @@ pub fn run_case(
         alloc::track(false);
         r
     };
+    beat_case(&format!("C {} {} {}\n{}", id, kind, join(cfg), if meta.is_empty() { String::new() } else { format!("X {}\n", meta) }));
     let mut made: Option<Box<dyn Subject>> = None;
     let mk_r = tracked(&mut || made = Some(mk()));
     let mut subj = match mk_r.map(|_| made.take().unwrap()) {
@@ -114,6 +136,7 @@ pub fn run_case(
         if t.samples.len() < 3 && sample.len() < 400 {
             sample.push_str(&format!("[{}] ", join(&op)));
         }
+        beat_op(&op);
         let mut res: Option<Ints> = None;
         let r = tracked(&mut || res = Some(subj.apply(&op))).map(|_| res.take().unwrap());
         let op = match subj.take_op_rewrite() {
@@ -155,6 +178,7 @@ pub fn run_case(
         }
     }
     // final drop of the cache: everything retained must be released exactly once
+    beat_op(&[99]);
     let mut subj = Some(subj);
     let final_snap = snap.clone();
     drop(snap);
